@@ -63,6 +63,11 @@ class Gen:
                                              '_'.join([dec[max(0, i - 3):i] for i in range(len(dec), 0, -3)][::-1])])
         if exh is not None and ro.random() < 0.3:
             d['args_rev'] = True
+        # attributes on variants that look like, but are not, conditional compilation
+        for v in d['variants']:
+            if ro.random() < 0.1:
+                v['attrs'] = [ro.choice(['#[cfg_attr(any(), doc = "never")]', '#[cfg_attr(all(), allow(dead_code))]',
+                                         '#[allow(dead_code)]', '#[doc = "a variant"]', '#[cfg_attr(any(), deprecated)]'])]
         if n == 64 and any(x >= (1 << 63) for x in discrs):
             d['repr'] = 'u64'
         return self.add(d, family)
